@@ -118,7 +118,7 @@ func genLine(r *rand.Rand) string {
 
 func genLokiEntries(r *rand.Rand, n int, spread int, pbOnly bool) []LEntry {
 	es := make([]LEntry, 0, n)
-	mode := r.Intn(4) // 0,1: lines only; 2: mixed; 3: metrics mostly
+	mode := r.Intn(6) // 0,1: lines only; 2: mixed; 3: metrics mostly; 4,5: a line in every entry, a value in some ("values" layout with both types)
 	if pbOnly {
 		mode = 0
 	}
@@ -127,6 +127,11 @@ func genLokiEntries(r *rand.Rand, n int, spread int, pbOnly bool) []LEntry {
 		switch {
 		case mode <= 1:
 			e.Line = sp(genLine(r))
+		case mode >= 4:
+			e.Line = sp(genLine(r))
+			if r.Intn(2) == 0 {
+				e.Val = fp64(genFloat(r))
+			}
 		case mode == 2:
 			switch r.Intn(4) {
 			case 0:
